@@ -149,7 +149,7 @@ func replayModel(pkgPath, fn string, mdl map[string]interface{}, tier string, ra
 	case strings.Contains(out, "VERIF-ASSUME-VIOLATED"):
 		return "assume-violated", out
 	case strings.Contains(out, "VERIF-ASSERT-FAILED"):
-		m := regexp.MustCompile(`VERIF-ASSERT-FAILED: ([^\n\[]*)`).FindStringSubmatch(out)
+		m := regexp.MustCompile(`VERIF-ASSERT-FAILED: (.*?)(?: \[recovered\])?\n`).FindStringSubmatch(out)
 		return "assert:" + strings.TrimSpace(m[1]), out
 	case strings.Contains(out, "WARNING: DATA RACE"):
 		return "race", out
@@ -394,7 +394,7 @@ func cmdCheck(args []string) {
 		sv.Unknown += r.Solver.Unknown
 		sv.Errors += r.Solver.Errors
 		sv.Seconds += r.Solver.Seconds
-		hsum = append(hsum, r)
+		hsum = append(hsum, map[string]interface{}{"harness": r.Name, "paths": r.Paths, "path_end_status": r.Status, "decisions": r.Decisions, "obligations": r.Obligations, "discharged": r.Discharged, "solver_queries": r.Solver.Queries, "budget_hit": r.BudgetHit})
 		// vacuity guard: every harness must reach its end on some path, and the witness must replay natively
 		if _, ok := r.Witness["end"]; !ok {
 			vacuous = append(vacuous, r.Name)
